@@ -118,6 +118,8 @@ pub struct Run {
     /// (tree-relative path, root-relative path as the entry reports it) of every entry seen by
     /// the terminal filter
     pub reported_rel: Vec<(String, String)>,
+    /// every item in order: (is Ok, tree-relative path, is a link cycle error, reported depth)
+    pub sequence: Vec<(bool, String, bool, usize)>,
 }
 
 struct Ctx<'a> {
@@ -154,9 +156,17 @@ where
         match item {
             Ok(e) => {
                 let t = tree_rel(ctx, e.path());
-                ctx.log.borrow_mut().yielded.push(t);
+                let mut log = ctx.log.borrow_mut();
+                log.sequence.push((true, t.clone(), false, e.depth()));
+                log.yielded.push(t);
             },
-            Err(_) => ctx.log.borrow_mut().errors += 1,
+            Err(err) => {
+                let mut log = ctx.log.borrow_mut();
+                log.errors += 1;
+                let t = err.path().map(|p| tree_rel(ctx, p)).unwrap_or_else(|| "<no path>".to_string());
+                let is_loop = format!("{}", err).contains("cycle");
+                log.sequence.push((false, t, is_loop, err.depth()));
+            },
         }
     }
     Ok(())
@@ -232,17 +242,27 @@ pub const MAX_STACK: usize = 3;
 
 /// Executes one stack with one history over one base walk in a built world.
 pub fn execute(place: &Place, base: &BaseWalk, layers: &[Layer], history: &History) -> Result<Run, String> {
+    execute_with(place, base, layers, history, wax::walk::LinkBehavior::ReadFile)
+}
+
+pub fn execute_with(
+    place: &Place,
+    base: &BaseWalk,
+    layers: &[Layer],
+    history: &History,
+    link: wax::walk::LinkBehavior,
+) -> Result<Run, String> {
     assert!(layers.len() <= MAX_STACK);
     let log = RefCell::new(Run::default());
     let ctx = Ctx { layers, history, log: &log, tree_root: &place.abs };
     let r = guard(|| match base {
-        BaseWalk::Path => level3(place.abs.as_path().walk(), &ctx, 0),
+        BaseWalk::Path => level3(place.abs.as_path().walk_with_behavior(link), &ctx, 0),
         BaseWalk::Glob(g) => {
             let glob = Glob::new(g).map_err(|e| format!("{}", e))?;
             if !glob.has_root().is_never() {
                 return Err("SKIP rooted base glob".to_string());
             }
-            level3(glob.walk(place.abs.clone()), &ctx, 0)
+            level3(glob.walk_with_behavior(place.abs.clone(), link), &ctx, 0)
         },
     });
     match r {
